@@ -109,6 +109,9 @@ class RecClient(RoutingClient):
 
     def message_from_device(self, message):
         self.got.append(message)
+        if getattr(self, "fail_next", False):
+            self.fail_next = False
+            raise RuntimeError("client failed while it was handed the update")
 
 
 ELEM_CLASS = {"text": properties.Text, "number": properties.Number, "switch": properties.Switch, "light": properties.Light, "blob": properties.BLOB}
@@ -331,6 +334,14 @@ class World:
             if o == "assign":
                 kind = dep["vecs"][ev["v"] - 1]["kind"]
                 self.elem(ev["v"], ev["e"]).value = conc(kind, ev["x"])
+            elif o == "assignfail":
+                # the publication of this assignment fails on the way (a client's callback raises)
+                kind = dep["vecs"][ev["v"] - 1]["kind"]
+                self.client.fail_next = True
+                try:
+                    self.elem(ev["v"], ev["e"]).value = conc(kind, ev["x"])
+                finally:
+                    self.client.fail_next = False
             elif o == "setvalue":
                 kind = dep["vecs"][ev["v"] - 1]["kind"]
                 self.elem(ev["v"], ev["e"]).set_value(conc(kind, ev["x"]))
@@ -523,8 +534,10 @@ def random_ops(r, dep: dict, length: int, world: "World") -> List[dict]:
         ei = r.randint(1, len(v["elems"]))
         if x < 0.18:
             ops.append({"o": "assign", "v": vi, "e": ei, "x": domain(v["kind"], r, wrong=r.random() < 0.1)})
-        elif x < 0.27:
+        elif x < 0.24:
             ops.append({"o": "setvalue", "v": vi, "e": ei, "x": domain(v["kind"], r)})
+        elif x < 0.27:
+            ops.append({"o": "assignfail", "v": vi, "e": ei, "x": domain(v["kind"], r)})
         elif x < 0.32:
             if v["kind"] in ("text", "number", "light"):       # reset_value bypasses the switch rule by design: not exercised on switches
                 ops.append({"o": "reset", "v": vi, "e": ei, "x": domain(v["kind"], r)})
@@ -608,6 +621,7 @@ def switch_traces(tier: str) -> List[dict]:
                 for e in range(1, n + 1):
                     for x in ("On", "Off"):
                         ops.append({"o": "assign", "v": 1, "e": e, "x": x})
+                        ops.append({"o": "assignfail", "v": 1, "e": e, "x": x})
                         ops.append({"o": "setvalue", "v": 1, "e": e, "x": x})
                         ops.append({"o": "new", "t": "A", "n": "SW", "ch": [[names[e - 1], x, True]], "kind": "switch"})
                 for k in (2, 3):
@@ -621,6 +635,14 @@ def switch_traces(tier: str) -> List[dict]:
                 # one fresh driver per operation, so that every transition starts from exactly this configuration
                 for op in ops:
                     out.append(run_trace(switch_dep(rule, n, list(ini)), lambda w, op=op: [op]))
+                # the same writes with a Write handler that vetoes the default on one switch (a vetoed write changes nothing)
+                if n <= 3:
+                    for ve in range(1, n + 1):
+                        dep = switch_dep(rule, n, list(ini))
+                        dep["hs"] = [{"v": 1, "e": ve, "ev": "W", "coro": False, "veto": True, "refresh": NOREFRESH}]
+                        for op in ops:
+                            if op["o"] == "setvalue" or (op["o"] == "new" and len(op["ch"]) <= 2):
+                                out.append(run_trace(dep, lambda w, op=op: [op]))
     return out
 
 
